@@ -4,12 +4,16 @@ use crate::CheckDef;
 use crate::report::Tier;
 
 pub mod c11;
+pub mod c12;
+pub mod c13;
 
 fn one(_: Tier) -> usize { 1 }
 
 pub fn all() -> Vec<CheckDef> {
     vec![
         CheckDef { id: "C11", shards: one, run: c11::run, replay: Some(c11::replay) },
+        CheckDef { id: "C12", shards: one, run: c12::run, replay: Some(c12::replay) },
+        CheckDef { id: "C13", shards: one, run: c13::run, replay: Some(c13::replay) },
     ]
 }
 
